@@ -78,11 +78,24 @@ def main(argv=None):
         print("[%6.1fs] %-46s %s %s" % (time.time() - t0, r.get("name"), ("ERROR " + r["error"].splitlines()[0][:200]) if r.get("error") else "", s), flush=True)
         if verbose and r.get("error"):
             print(r["error"])
+    smt2 = None
+    if tier == "thorough" or os.environ.get("VERIF_SECOND_OPINION"):
+        smt2 = "/tmp/verif_smt2/%s_%d" % (prop, os.getpid())
+        os.environ["VERIF_SMT2_DIR"] = smt2
     results = run_jobs(jobs, prop, tier, seed, replay_dir, log=log)
-    return finish(mod, prop, tier, seed, results, t0, partial=bool(only))
+    second = None
+    if smt2:
+        import subprocess, shutil
+        try:
+            out = subprocess.run([sys.executable, os.path.join(env.VERIF, "tools", "second_opinion.py"), smt2, "24"], capture_output=True, text=True, timeout=1200).stdout
+            second = json.loads(out.strip().splitlines()[-1])
+        except Exception as e:
+            second = dict(error=str(e))
+        shutil.rmtree(smt2, ignore_errors=True)
+    return finish(mod, prop, tier, seed, results, t0, partial=bool(only), second=second)
 
 
-def finish(mod, prop, tier, seed, results, t0, partial=False):
+def finish(mod, prop, tier, seed, results, t0, partial=False, second=None):
     known, fixed = load_findings()
     violations = []
     known_hit = []
@@ -152,6 +165,11 @@ def finish(mod, prop, tier, seed, results, t0, partial=False):
                                     trace=x.get("trace"), replay=x.get("replay"), known=kf is not None))
             else:
                 inconclusive.append("%s: %s %s" % (key, x["verdict"], x.get("reason", "")))
+    if second is not None:
+        for dd in second.get("disagreements", []):
+            inconclusive.append("second opinion: %s answers %s where the deciding solver answered %s (%s)" % (dd["solver"], dd["got"], dd["expected"], dd["file"]))
+        if second.get("error"):
+            inconclusive.append("second opinion failed: %s" % second["error"])
     grouped = {}
     for key, kf in known_hit:
         grouped.setdefault(kf["key"], (kf, []))[1].append(key)
@@ -184,6 +202,8 @@ def finish(mod, prop, tier, seed, results, t0, partial=False):
         exhaustive=False,
         partial_run=partial,
     )
+    if second is not None:
+        coverage["second_opinion"] = dict(second, note="sample of the decided queries exported as SMT-LIB2 and re-decided by /usr/bin/z3 4.8.12 and the cvc5 1.0 binary; 'noopinion' = time-out/unknown/unsupported logic")
     if hasattr(mod, "COVERAGE_EXTRA"):
         coverage.update(mod.COVERAGE_EXTRA(results))
     ev = dict(property_id=prop, tier=tier, seed=seed, level=level, coverage=coverage,
